@@ -44,8 +44,9 @@ var baseTy = map[string]string{"a": "int", "n": "int", "x": "float", "y": "float
 	"p": "bool", "q": "bool", "d": "duration", "e": "duration", "time": "time"}
 
 type gen struct {
-	r    *kit.Rand
-	used map[string]bool
+	r        *kit.Rand
+	used     map[string]bool
+	wantInst int // > 0: the case wants this many CopyReset copies (groups)
 }
 
 func (g *gen) valOf(ty string) interface{} {
@@ -78,8 +79,12 @@ func ref(n string) *ex             { return &ex{kind: "R", op: n} }
 func un(op string, e *ex) *ex      { return &ex{kind: "U", op: op, kids: []*ex{e}} }
 func bin(op string, l, r *ex) *ex  { return &ex{kind: "B", op: op, kids: []*ex{l, r}} }
 func call(fn string, a ...*ex) *ex { return &ex{kind: "F", op: fn, kids: a} }
+func lam(e *ex) *ex                { return &ex{kind: "LAM", kids: []*ex{e}} } // a lambda node nested in the expression
 func (g *gen) ref(ty string) *ex   { n := kit.Pick(g.r, refsOf[ty]); g.used[n] = true; return ref(n) }
 func (g *gen) leaf(ty string) *ex {
+	if g.r.Chance(1, 25) {
+		return lam(g.leaf(ty)) // `var w = lambda: "x"` used as a value
+	}
 	if ty == "regex" || g.r.Chance(1, 3) {
 		return lit(g.valOf(ty))
 	}
@@ -102,6 +107,9 @@ func (g *gen) expr(ty string, depth int) *ex {
 		return g.leaf(ty)
 	}
 	d := depth - 1
+	if r.Chance(1, 16) {
+		return lam(g.expr(ty, d)) // a lambda node at any position (stateful or not, dynamic or constant, lambdas in lambdas)
+	}
 	switch ty {
 	case "bool":
 		switch r.Intn(13) {
@@ -295,14 +303,6 @@ func directOf(ty string) string {
 }
 
 func genCase(r *kit.Rand, i int, thorough bool) []string {
-	if i%40 == 39 { // a lambda node nested in the expression, asked by one or several groups
-		lines := []string{"lam " + strconv.Itoa(r.Intn(4))}
-		groups := 1 + r.Intn(3)
-		for j := 2 + r.Intn(7); j > 0; j-- {
-			lines = append(lines, "lev "+strconv.Itoa(r.Intn(groups)))
-		}
-		return lines
-	}
 	g := &gen{r: r, used: map[string]bool{}}
 	var e *ex
 	ty := kit.Pick(r, allTys)
@@ -312,7 +312,9 @@ func genCase(r *kit.Rand, i int, thorough bool) []string {
 	if usePoints && r.Chance(3, 4) {
 		ty = "bool" // EvalPredicate wants a boolean
 	}
-	if r.Chance(1, 3) {
+	if i%16 == 15 { // lambda nodes nested in the expression, asked by one or several groups
+		e, ty, mainPath, flip = g.lambdaDirected()
+	} else if r.Chance(1, 3) {
 		e, ty, mainPath, flip = g.directed(i)
 	} else {
 		depth := 1 + r.Intn(4)
@@ -332,6 +334,9 @@ func genCase(r *kit.Rand, i int, thorough bool) []string {
 	nInst := 1
 	if r.Chance(1, 3) {
 		nInst = 2 + r.Intn(2)
+	}
+	if g.wantInst > 0 {
+		nInst = g.wantInst
 	}
 	for k := 1; k < nInst; k++ {
 		lines = append(lines, "inst "+strconv.Itoa(k))
@@ -430,6 +435,48 @@ func (g *gen) directed(i int) (*ex, string, string, int) {
 			kit.Pick(r, []*ex{i64(), g.ref("int")})), "bool", "", 30
 	default: // count() shared cache, separate state
 		return bin("gt", call("count"), lit(int64(r.Intn(3)))), "bool", "pred", 0
+	}
+}
+
+// lambdaDirected: shapes around EvalLambdaNode — the recorded finding (a stateful function inside a nested lambda, one or several
+// groups), its state separate from the enclosing expression's, stateless lambdas under several groups, lambdas in lambdas, dynamic
+// lambdas whose body changes type, a lambda around a missing reference as a function argument, a lambda that yields a time.
+func (g *gen) lambdaDirected() (*ex, string, string, int) {
+	r := g.r
+	g.wantInst = 1 + r.Intn(3)
+	k := lit(int64(r.Intn(4)))
+	switch r.Intn(10) {
+	case 0: // the finding: (lambda: count()) > k
+		return bin("gt", lam(call("count")), k), "bool", kit.Pick(r, []string{"pred", "eval", "dBool"}), 0
+	case 1: // lambda: count() > k, possibly under AND with a field (short circuit skips the lambda: its counter stands still)
+		w := lam(bin("gt", call("count"), k))
+		if r.Bool() {
+			return bin(kit.Pick(r, []string{"and", "or"}), g.ref("bool"), w), "bool", "pred", 0
+		}
+		return w, "bool", "pred", 0
+	case 2: // sigma / spread inside the lambda, over a field
+		f := kit.Pick(r, []string{"sigma", "spread"})
+		return bin("gt", lam(call(f, g.ref("float"))), lit(kit.Pick(r, []float64{0, 0.5, 1, 2}))), "bool", "", 0
+	case 3: // the lambda's own functions are separate from the enclosing expression's: count() * (lambda: count())
+		return bin(kit.Pick(r, []string{"mult", "plus", "minus"}), call("count"), lam(call("count"))), "int", "eval", 0
+	case 4: // two lambda nodes, each with its own state; a lambda in a lambda
+		if r.Bool() {
+			return bin("plus", lam(call("count")), bin("mult", lit(int64(10)), lam(call("count")))), "int", "eval", 0
+		}
+		return bin("plus", lam(bin("mult", lit(int64(10)), lam(call("count")))), lam(lam(call("count")))), "int", "eval", 0
+	case 5: // a STATELESS lambda inside a stateful expression under several groups: no deviation
+		g.wantInst = 2 + r.Intn(2)
+		return bin("gt", bin("mult", call("count"), lam(bin("mult", g.ref("int"), lit(int64(2))))), lit(int64(15))), "bool", "", 10
+	case 6: // a dynamic lambda whose body changes type between points
+		return bin(kit.Pick(r, []string{"plus", "mult", "lt"}), lam(g.ref("int")), kit.Pick(r, []*ex{lit(int64(2)), lit(2.5), g.ref("int")})), "int", "", 60
+	case 7: // a lambda around a missing / undefined reference as a function argument
+		n := kit.Pick(r, []string{"a", "z"})
+		g.used[n] = true
+		return call("if", call("isPresent", lam(ref(n))), lam(kit.Pick(r, []*ex{ref(n), un("neg", ref(n))})), lit(int64(7))), "int", "", 70
+	case 8: // a lambda that yields a time: EvalLambdaNode.EvalTime refuses
+		return bin("ge", call(kit.Pick(r, []string{"hour", "unixNano"}), lam(g.ref("time"))), lit(int64(0))), "bool", "", 0
+	default: // constant lambdas (the binary node above them is specialised at construction) and a failing constant one
+		return bin(kit.Pick(r, []string{"plus", "eq", "and"}), lam(lit(kit.Pick(r, intPool))), lam(kit.Pick(r, []*ex{lit(int64(3)), lit(true), lit(1.5)}))), "int", "", 0
 	}
 }
 
